@@ -836,8 +836,10 @@ class Rewriter:
                 end = self._stmt_end(t, i)
                 L = x.line
                 if end == i + 1:
-                    # re-throw: iora_exc already set
-                    out += [Tok('op', '{', L)] + self._ret_dflt(dflt, L, label) + [Tok('op', '}', L)]
+                    # re-throw (`throw;` is only legal inside a handler): the handler prologue IORA_CATCH_ENTER() moved the
+                    # exception to iora_exc_caught and cleared iora_exc, so it has to be re-raised explicitly
+                    out += [Tok('op', '{', L), Tok('id', 'IORA_RETHROW', L), Tok('op', '(', L), Tok('op', ')', L), Tok('op', ';', L)] \
+                        + self._ret_dflt(dflt, L, label) + [Tok('op', '}', L)]
                     self.R.fire('R8r')
                     i = end + 1
                     continue
